@@ -572,6 +572,13 @@ func (c *Ctx) finish(info *propInfo, start time.Time) int {
 	if c.SelfTest != nil {
 		cov["self_test"] = c.SelfTest
 	}
+	if info.Assumptions == nil {
+		info.Assumptions = []string{"the type-checked source of /repo's working tree is what gets built (no build tags, no generated sources outside the tree)"}
+	}
+	if info.Trusted == nil {
+		info.Trusted = []string{"go/types", "go/ssa"}
+		cov["trusted_base"] = info.Trusted
+	}
 	seed := 0
 	fmt.Sscanf(os.Getenv("VERIF_SEED"), "%d", &seed)
 	ev := map[string]interface{}{
